@@ -27,6 +27,7 @@ CONSTANTS Nodes, Uids, Pods,
           Reqs,          \* menu of pod requests
           PodAttr,       \* pod -> [ns, app, ctrl]
           TermPhases,    \* terminal phases explored
+          TermVals, DeadVals,   \* deletion-timestamp / completed-pod flags explored (BOOLEAN or {FALSE})
           FixLedger, FixNominate,
           AllowMigrate,  \* extended multi-scheduler transition: an available reservation re-bound to another node
           Recording, K   \* Gen: record the operations in hist / bound on its length
@@ -230,7 +231,7 @@ NextR == \E u \in Uids :
             \/ \E s \in RSpecs : \/ ApiCreate(u, s)
                                   \/ BindFail(u, s)
                                   \/ \E n \in Nodes : ApiCreateAvail(u, s, n)
-                                  \/ \E t \in BOOLEAN : ApiEdit(u, s, t)
+                                  \/ \E t \in TermVals : ApiEdit(u, s, t)
             \/ \E n2 \in Nodes : SchedAssume(u, n2) \/ ApiMigrate(u, n2)
             \/ BindOK(u)
             \/ ApiDelete(u)
@@ -238,7 +239,7 @@ NextR == \E u \in Uids :
 NextP == \E p \in Pods :
             \/ \E req \in Reqs : \/ PBindFail(p, req)
                                   \/ \E n \in Nodes \cup {""}, ra \in Uids \cup {""} : PodCreate(p, req, n, ra)
-                                  \/ \E ra2 \in Uids \cup {""}, dead \in BOOLEAN : PodEdit(p, req, ra2, dead)
+                                  \/ \E ra2 \in Uids \cup {""}, dead \in DeadVals : PodEdit(p, req, ra2, dead)
             \/ \E u \in Uids : Assume(p, u)
             \/ PBindOK(p)
             \/ PodDelete(p)
@@ -259,9 +260,10 @@ LedgerSpecs1 == {SpecOf("Restricted", FALSE, a, ro, <<>>, Anyone, FALSE) :
 \* indexes / allocate-once
 IndexSpecs == {SpecOf("Aligned", once, [cpu |-> 2], <<>>, <<>>, Anyone, FALSE) : once \in BOOLEAN}
 \* owners
-MatchSpecs == {SpecOf("Aligned", once, [cpu |-> 2], <<>>, <<>>, ow, FALSE) :
-                   once \in BOOLEAN, ow \in {<<Own("a", "", "")>>, <<Own("", "p2", "")>>, <<Own("b", "", "rs1")>>, <<>>}}
-              \cup {SpecOf("Aligned", FALSE, [cpu |-> 2], <<>>, <<>>, Anyone, TRUE)}
+MatchSpecs == {SpecOf("Aligned", FALSE, [cpu |-> 2], <<>>, <<>>, ow, FALSE) :
+                   ow \in {<<Own("a", "", "")>>, <<Own("", "p2", "")>>, <<Own("b", "", "rs1")>>, <<>>}}
+              \cup {SpecOf("Aligned", FALSE, [cpu |-> 2], <<>>, <<>>, Anyone, TRUE),
+                    SpecOf("Aligned", TRUE, [cpu |-> 2], <<>>, <<>>, <<Own("a", "", ""), Own("", "p2", "")>>, FALSE)}
 PA2 == [p1 |-> [ns |-> "ns1", app |-> "a", ctrl |-> ""], p2 |-> [ns |-> "ns2", app |-> "b", ctrl |-> "rs1"]]
 PA3 == [p1 |-> [ns |-> "ns1", app |-> "a", ctrl |-> ""], p2 |-> [ns |-> "ns2", app |-> "b", ctrl |-> "rs1"],
         p3 |-> [ns |-> "ns1", app |-> "a", ctrl |-> "rs1"]]
